@@ -201,6 +201,16 @@ func (f fault) apply(obj types.Object) types.Object {
 				t.Elems = nil
 				o.Attrs[name] = t
 			}
+		case "bare-null", "bare-unknown":
+			null := f.kind == "bare-null"
+			switch o.Attrs[name].(type) {
+			case types.List:
+				o.Attrs[name] = types.List{Null: null, Unknown: !null}
+			case types.Map:
+				o.Attrs[name] = types.Map{Null: null, Unknown: !null}
+			case types.Object:
+				o.Attrs[name] = types.Object{Null: null, Unknown: !null}
+			}
 		case "elem-wrong-type":
 			setElem(wrongValue{})
 		case "elem-nil-interface":
@@ -575,6 +585,10 @@ func monC06(x *Ctx) {
 				for j := 0; j < n; j++ {
 					p := pos[x.prf.Int(len(pos), in, fmt.Sprint(k, j), "wpos")]
 					cand := faultsAt(p)
+					if !p.isElem && (p.isObject || p.isColl) {
+						// hand-built prior values that carry no type information at all
+						cand = append(cand, fault{p, "bare-null"}, fault{p, "bare-unknown"})
+					}
 					f := cand[x.prf.Int(len(cand), in, fmt.Sprint(k, j), "wkind")]
 					if f.kind == "delete" {
 						continue
